@@ -489,6 +489,14 @@ func (p *Packer) Unpack(r io.Reader, dst string) error {
 	for {
 		header, err := untar.Next()
 		if err == io.EOF {
+			// The archive ends at its end-of-archive marker, which is not
+			// necessarily where the compressed stream ends. Read that to
+			// its end as well: only then has its checksum been verified,
+			// and a stream that was cut short or corrupted on the way must
+			// not pass for a slug.
+			if _, err := io.Copy(io.Discard, uncompressed); err != nil {
+				return fmt.Errorf("failed to untar slug: %w", err)
+			}
 			break
 		}
 		if err != nil {
